@@ -32,7 +32,8 @@ Record case := {
   c_nls : option (list Q);                           (* non-linear constraint scales (None: no such transform) *)
   c_R : nat;
   c_samples : list (list (list Q));
-  c_calls : list (reqkind * list Q);                 (* expected evaluator calls: kind, user-domain point *)
+  c_calls : list (reqkind * list (list Q));          (* expected evaluator calls: kind, user-domain point(s); a function
+                                                        request may carry a batch of points (2-D variables) *)
   c_plain : runobs;
   c_scaled : runobs;
   c_opt : list resobs;                               (* optimizer-domain results of the scaled run *)
@@ -66,8 +67,27 @@ Definition run_cfg_ok (S : Q) (r : runobs) (m : vcfg) : bool :=
   vclose S (r_x0 r) (g_x0 m) && elist_close S (r_lb r) (g_lb m) && elist_close S (r_ub r) (g_ub m)
   && vclose S (r_mag r) (g_mag m).
 
-Definition model_calls (R : nat) (ss os : list Q) (m : vcfg) samples (calls : list (reqkind * list Q)) : list (list (list Q)) :=
-  map (fun kp => requests mirror_repeat R (fst kp) ss os m (to_opt ss os (snd kp)) samples) calls.
+(* rows of one call: a function request repeats every point of the batch R times; gradient / combined requests
+   are issued for exactly one point *)
+Definition call_rows (R : nat) (ss os : list Q) (m : vcfg) samples (kp : reqkind * list (list Q)) : list (list Q) :=
+  match kp with
+  | (RFunctions, pts) => batch_requests R ss os (map (to_opt ss os) pts)
+  | (k, [p]) => requests mirror_repeat R k ss os m (to_opt ss os p) samples
+  | (_, _) => []
+  end.
+Definition model_calls (R : nat) (ss os : list Q) (m : vcfg) samples (calls : list (reqkind * list (list Q))) : list (list (list Q)) :=
+  map (call_rows R ss os m samples) calls.
+
+(* the results one call delivers: one function result per point, then the gradient result; [true] = function result,
+   paired with the user-domain point it was computed at *)
+Definition call_results (kp : reqkind * list (list Q)) : list (bool * list Q) :=
+  match kp with
+  | (RFunctions, pts) => map (fun p => (true, p)) pts
+  | (RGradient, [p]) => [(false, p)]
+  | (RBoth, [p]) => [(true, p); (false, p)]
+  | (_, _) => []
+  end.
+Definition expected_results (calls : list (reqkind * list (list Q))) : list (bool * list Q) := concat (map call_results calls).
 
 Definition ccfg_of (lb ub : list ereal) (l : option lincfg) (n : option (list ereal * list ereal)) : ccfg :=
   {| v_lower := lb; v_upper := ub; c_linear := l; c_nonlinear := n |}.
@@ -98,6 +118,28 @@ Definition plain_fres_ok (S : Q) (ucfg : ccfg) (u : resobs) : bool :=
 
 (* variables reported in the results: the user-domain point of the call; optimizer domain: its image *)
 Definition res_vars (r : resobs) : list Q := match r with RF v _ _ _ _ _ => v | RG v _ _ _ => v end.
+Definition is_RF (r : resobs) : bool := match r with RF _ _ _ _ _ _ => true | RG _ _ _ _ => false end.
+
+(* the sequence of results is the one the calls must deliver, each at its own point *)
+Definition res_expected (S : Q) (r : resobs) (e : bool * list Q) : bool :=
+  Bool.eqb (is_RF r) (fst e) && vclose S (res_vars r) (snd e).
+
+(* gradient results: the perturbed variables reported to the user are the model's perturbed vectors at that point
+   (realization -> perturbation -> variable), in the optimizer domain their pre-images *)
+Definition gres_ok (S : Q) (ss os : list Q) (m : vcfg) samples (u o : resobs) : bool :=
+  match u, o with
+  | RG v pv _ _, RG _ pv' _ _ =>
+      let y := to_opt ss os v in
+      tclose S pv (map (map (fun z => from_opt ss os (perturb mirror_repeat m y z))) samples)
+      && tclose S pv' (map (map (perturb mirror_repeat m y)) samples)
+  | RF _ _ _ _ _ _, RF _ _ _ _ _ _ => true
+  | _, _ => false
+  end.
+Definition plain_gres_ok (S : Q) (n : nat) (m : vcfg) samples (u : resobs) : bool :=
+  match u with
+  | RG v pv _ _ => tclose S pv (map (map (fun z => from_opt (ones n) (zeros n) (perturb mirror_repeat m (to_opt (ones n) (zeros n) v) z))) samples)
+  | _ => true
+  end.
 
 (* a finite difference closer to zero than the comparison tolerance: feasibility may legitimately flip *)
 Definition near_zero (S : Q) (e : ereal) : bool :=
@@ -154,6 +196,10 @@ Definition check_case (c : case) : bool :=
       && forallb (plain_fres_ok S ucfg) (r_user P)
       && forallb2 (fres_ok S ucfg (c_ss c) (c_fs c) (c_eq c) (c_nls c)) (r_user T) (c_opt c)
       && forallb2 (fun o u' => vclose S (res_vars o) (to_opt (c_ss c) (c_os c) (res_vars u'))) (c_opt c) (r_user P)
+      && forallb2 (res_expected S) (r_user P) (expected_results (c_calls c))
+      && forallb2 (res_expected S) (r_user T) (expected_results (c_calls c))
+      && forallb (plain_gres_ok S n mA (c_samples c)) (r_user P)
+      && forallb2 (gres_ok S (c_ss c) (c_os c) mB (c_samples c)) (r_user T) (c_opt c)
       (* random user-domain points: image, round trip, differences and feasibility *)
       && forallb (point_ok S ucfg (ccfg_of (r_lb T) (r_ub T) (r_lin T) None) (c_ss c) (c_os c) (c_eq c)) (c_points c)
   | _, _ => false
